@@ -208,7 +208,13 @@ def _instance(layer, R, P, tier):
                 for ck, x in zip(CK, V[i]):
                     if x != 0:
                         comp[ck] = x if isinstance(x, int) else float(x)
-                _SHARED[(tier, i)] = (Substance(nm, composition=comp), dict(comp))
+                if 0 in comp:
+                    # charged species are declared the documented way: charge= next to a composition holding the elements
+                    # only (for the bare electron: an empty one); the object then carries composition[0] == charge
+                    obj = Substance(nm, charge=comp[0], composition={k: v for k, v in comp.items() if k != 0})
+                    _SHARED[(tier, i)] = (obj, dict(comp))
+                else:
+                    _SHARED[(tier, i)] = (Substance(nm, composition=comp), dict(comp))
             obj, orig = _SHARED[(tier, i)]
             subs[nm] = obj
     n = len(names)
@@ -250,6 +256,13 @@ def _check_instance(res, layer, R, P, tier, modes, order):
     names, nR, subs, A = _instance(layer, R, P, tier)
     n = len(names)
     rnames, pnames = names[:nR], names[nR:]
+    if layer == "V":
+        for i in R + P:
+            obj, orig = _SHARED[(tier, i)]
+            if obj.composition != orig:
+                res.violation("C02|substances|declared-with-charge-keyword|composition-differs", "Substance(%r, charge=%r, composition=%r).composition = %r before any balancing call" % (
+                    obj.name, orig.get(0), {k: v for k, v in orig.items() if k != 0}, obj.composition), dict(layer=layer, R=list(R), P=list(P), mode="None", tier=tier, order=order), repr(obj.composition), repr(orig))
+                obj.composition = dict(orig)
     ns, feasible, rays = analyse(A, n) if A else ([], False, [])
     trivial = _precheck_stops(A, nR) if A else True
     single = feasible and len(ns) == 1
